@@ -85,6 +85,92 @@ func c08Targets(c *Corpus, reader index.IndexReader) [][]byte {
 	return out
 }
 
+// enumerate returns the Next-only enumeration of q ("" message when fine).
+func (e *searcherEnv) enumerate(q *Q) (E [][]byte, msg string) {
+	s, sctx, err := e.build(q)
+	if err != nil {
+		return nil, fmt.Sprintf("building the searcher failed: %v", err)
+	}
+	defer s.Close()
+	for {
+		id, err := callSearcher(func() (*search.DocumentMatch, error) { return s.Next(sctx) })
+		if err != nil {
+			return nil, fmt.Sprintf("Next-only enumeration failed after %x: %v", E, err)
+		}
+		if id == nil {
+			return E, ""
+		}
+		if len(E) > 0 && bytes.Compare(E[len(E)-1], id) >= 0 {
+			return nil, fmt.Sprintf("Next returned id %x after %x (not strictly increasing)", id, E[len(E)-1])
+		}
+		E = append(E, id)
+		if len(E) > 1000 {
+			return nil, "Next-only enumeration does not end"
+		}
+	}
+}
+
+// runProgram executes a concrete program on a fresh searcher for q and compares it with
+// the simulation on the Next-only enumeration.  Calls whose target is not beyond the last
+// returned id / previous target (possible when the program was drawn for another query
+// during minimisation) are dropped: they are outside the contract.
+func (e *searcherEnv) runProgram(q *Q, prog []c08Call) (msg string, skipped bool) {
+	E, m := e.enumerate(q)
+	if m != "" {
+		return m, false
+	}
+	s, sctx, err := e.build(q)
+	if err != nil {
+		return fmt.Sprintf("building the searcher failed: %v", err), false
+	}
+	defer s.Close()
+	pos := 0
+	var floor []byte
+	done := false
+	var ran []c08Call
+	for ci, call := range prog {
+		var got []byte
+		var err error
+		if call.Advance {
+			var tgt []byte
+			fmt.Sscanf(call.Target, "%x", &tgt)
+			if floor != nil && bytes.Compare(tgt, floor) <= 0 {
+				continue
+			}
+			floor = tgt
+			np := pos + sort.Search(len(E)-pos, func(i int) bool { return bytes.Compare(E[pos+i], tgt) >= 0 })
+			if done {
+				np = len(E)
+			}
+			if np > pos {
+				skipped = true
+			}
+			pos = np
+			got, err = callSearcher(func() (*search.DocumentMatch, error) { return s.Advance(sctx, index.IndexInternalID(tgt)) })
+		} else {
+			got, err = callSearcher(func() (*search.DocumentMatch, error) { return s.Next(sctx) })
+		}
+		ran = append(ran, call)
+		if err != nil {
+			return fmt.Sprintf("program %s: call %d failed: %v", canonJSON(ran), ci, err), skipped
+		}
+		var want []byte
+		if pos < len(E) {
+			want = E[pos]
+			pos++
+		} else {
+			done = true
+		}
+		if !bytes.Equal(got, want) {
+			return fmt.Sprintf("program %s: last call returned %x, the Next-only enumeration %x says %x", canonJSON(ran), got, E, want), skipped
+		}
+		if got != nil {
+			floor = got
+		}
+	}
+	return "", skipped
+}
+
 func TestC08Searchers(t *testing.T) {
 	ev := Ev("C08")
 	ev.SetRule("rapid: corpus from a generated history (1-4+ segments with tombstones on scorch mem/disk zap v11-17, or upsidedown gtreap/boltdb); query tree from the full family built with query.Searcher exactly as SearchInContext does, under drawn searcher options (score none => unadorned optimisations, term vectors, explain) and DisjunctionHeapTakeover in {2,10}; " +
@@ -122,98 +208,56 @@ func TestC08Searchers(t *testing.T) {
 				continue
 			}
 			ctxDump = func() string { return fmt.Sprintf("C08 query %s on %s opts %+v", q, c.Cfg, env.opts) }
-			// E: Next-only enumeration
-			s, sctx, err := env.build(q)
-			if err != nil {
-				t.Fatalf("building searcher for %s on %s (%+v): %v", q, c.Cfg, env.opts, err)
+			E, msg := env.enumerate(q)
+			if msg != "" {
+				t.Fatalf("query %s on %s (%+v) docs %v: %s", q, c.Cfg, env.opts, c.Model.Docs, msg)
 			}
-			var E [][]byte
-			for {
-				id, err := callSearcher(func() (*search.DocumentMatch, error) { return s.Next(sctx) })
-				if err != nil {
-					t.Fatalf("Next-only enumeration of %s on %s (%+v): %v", q, c.Cfg, env.opts, err)
-				}
-				if id == nil {
-					break
-				}
-				if len(E) > 0 && bytes.Compare(E[len(E)-1], id) >= 0 {
-					t.Fatalf("query %s on %s (%+v): Next returned id %x after %x (not strictly increasing)", q, c.Cfg, env.opts, id, E[len(E)-1])
-				}
-				E = append(E, id)
-				if len(E) > 1000 {
-					t.Fatalf("query %s on %s: enumeration does not end", q, c.Cfg)
-				}
-			}
-			s.Close()
-			// programs
-			skipped := false
+			anySkipped := false
 			var prog []c08Call
 			for pi := 0; pi < 3; pi++ {
-				s, sctx, err := env.build(q)
-				if err != nil {
-					t.Fatalf("rebuilding searcher: %v", err)
-				}
-				prog = prog[:0]
-				pos := 0 // index into E of the next element Next would return
-				var last []byte
-				done := false
+				// draw a concrete forward program, biased towards existing matches
+				prog = nil
+				pos := 0
+				var floor []byte
 				n := rapid.IntRange(1, 25).Draw(t, "ncalls")
 				for ci := 0; ci < n; ci++ {
-					var want []byte
-					var got []byte
-					var err error
 					if rapid.Bool().Draw(t, "advance") {
-						// forward target: strictly greater than the last returned id
 						lo := 0
-						if last != nil {
-							lo = sort.Search(len(targets), func(i int) bool { return bytes.Compare(targets[i], last) > 0 })
-						}
-						if lo >= len(targets) {
-							continue
+						if floor != nil {
+							lo = sort.Search(len(targets), func(i int) bool { return bytes.Compare(targets[i], floor) > 0 })
 						}
 						var tgt []byte
 						if pos < len(E) && rapid.Bool().Draw(t, "tgtMatch") {
 							tgt = E[rapid.IntRange(pos, len(E)-1).Draw(t, "tgtE")]
-						} else {
+						} else if lo < len(targets) {
 							tgt = targets[rapid.IntRange(lo, len(targets)-1).Draw(t, "tgt")]
+						} else {
+							continue
 						}
-						if last != nil && bytes.Compare(tgt, last) <= 0 {
-							continue // E[pos] can equal a floor set by an earlier Advance target
+						if floor != nil && bytes.Compare(tgt, floor) <= 0 {
+							continue
 						}
-						last = tgt // later targets must also lie beyond this one (forward only)
+						floor = tgt
 						prog = append(prog, c08Call{Advance: true, Target: fmt.Sprintf("%x", tgt)})
-						np := pos + sort.Search(len(E)-pos, func(i int) bool { return bytes.Compare(E[pos+i], tgt) >= 0 })
-						if done {
-							np = len(E)
-						}
-						if np > pos {
-							skipped = true
-						}
-						pos = np
-						got, err = callSearcher(func() (*search.DocumentMatch, error) { return s.Advance(sctx, index.IndexInternalID(tgt)) })
+						pos += sort.Search(len(E)-pos, func(i int) bool { return bytes.Compare(E[pos+i], tgt) >= 0 })
 					} else {
 						prog = append(prog, c08Call{})
-						got, err = callSearcher(func() (*search.DocumentMatch, error) { return s.Next(sctx) })
-					}
-					if err != nil {
-						t.Fatalf("query %s on %s (%+v): program %s: call %d failed: %v", q, c.Cfg, env.opts, canonJSON(prog), ci, err)
 					}
 					if pos < len(E) {
-						want = E[pos]
+						floor = E[pos]
 						pos++
-					} else {
-						done = true
-					}
-					if !bytes.Equal(got, want) {
-						t.Fatalf("query %s on %s (%+v): program %s: call %d returned %x, the Next-only enumeration %x says %x", q, c.Cfg, env.opts, canonJSON(prog), ci, got, E, want)
-					}
-					if got != nil {
-						last = got
 					}
 				}
-				s.Close()
+				msg, skipped := env.runProgram(q, prog)
+				if msg != "" {
+					p := append([]c08Call(nil), prog...)
+					qmin := MinimizeQ(q, func(v *Q) bool { m, _ := env.runProgram(v, p); return m != "" })
+					mmin, _ := env.runProgram(qmin, p)
+					t.Fatalf("query %s on %s (%+v): %s\nminimised query %s: %s\nlive docs %v", q, c.Cfg, env.opts, msg, qmin, mmin, c.Model.Docs)
+				}
+				anySkipped = anySkipped || skipped
 			}
-			nt := q.HasCompound() && skipped && len(E) >= 2
+			nt := q.HasCompound() && anySkipped && len(E) >= 2
 			segs, del := SegmentShape(c.Idx)
 			cl := []string{"engine:" + c.Cfg.Engine, fmt.Sprintf("opts:score=%q,tv=%v,explain=%v", env.opts.Score, env.opts.IncludeTermVectors, env.opts.Explain)}
 			if segs > 1 {
